@@ -28,6 +28,9 @@ func (e *E2eProcessingLatencyAggregate) UnmarshalJSON(b []byte) error {
 	}
 
 	for _, p := range resp.Percentiles {
+		if p == nil {
+			continue
+		}
 		p["min"] = p["value"]
 		p["max"] = p["value"]
 		p["average"] = p["value"]
@@ -54,6 +57,10 @@ func (e *E2eProcessingLatencyAggregate) Less(i, j int) bool {
 // Add merges e2 into e by averaging the percentiles
 func (e *E2eProcessingLatencyAggregate) Add(e2 *E2eProcessingLatencyAggregate) {
 	e.Addr = "*"
+	if e2 == nil {
+		// nothing to merge (the node did not report latency data)
+		return
+	}
 	p := e.Percentiles
 	e.Count += e2.Count
 	for _, value := range e2.Percentiles {
